@@ -192,6 +192,7 @@ class Pair:
         if kb is not None:
             self.b.set_payload_codec(kb)
         self.subs = {}          # topic -> subscription id
+        self.defined = {}       # error URI -> exception class define()d at A
         self.sub_handlers = {}  # topic -> number of handlers attached to that subscription id
         self.regs = {}          # procedure -> registration id
         self.events = []        # (subscribed topic, details.topic, args, kwargs, details.enc_algo, handler index)
@@ -284,6 +285,29 @@ class Pair:
         assert o.results and o.results[0][0] == "ok", o.results
         self.regs[proc] = rid
         return rid
+
+    # -- caller-side exception classes ---------------------------------------------------------------
+    def define_errors(self, any_uris=(), fixed_uris=()):
+        """session.define() exception classes at the CALLER (A) for error URIs: ``any_uris`` -> a class constructible
+        from any args/kwargs; ``fixed_uris`` -> a class with the fixed signature (item, qty=0).  Instances record the
+        URI they are mapped to and what they were constructed from (c20_uri / c20_args / c20_kwargs)."""
+        class AnyArgsError(Exception):
+            def __init__(self, *args, **kwargs):
+                Exception.__init__(self, *args)
+                self.c20_args = list(args)
+                self.c20_kwargs = dict(kwargs)
+
+        class FixedArityError(Exception):
+            def __init__(self, item, qty=0):
+                Exception.__init__(self, item)
+                self.c20_args = [item]
+                self.c20_kwargs = {"qty": qty}
+
+        for base, uris in ((AnyArgsError, any_uris), (FixedArityError, fixed_uris)):
+            for u in uris:
+                cls = type(base.__name__ + "_" + u.rsplit(".", 1)[-1], (base,), {"c20_uri": u})
+                self.a.define(cls, u)
+                self.defined[u] = cls
 
     # -- originator actions -----------------------------------------------------------------------
     def publish(self, topic, args, kwargs):
